@@ -53,6 +53,23 @@ type EmbUnexported struct {
 	Q, R int
 	inner2
 }
+type inner3 struct {
+	Tags []string
+	P    *int
+}
+
+// EmbHidden gets its slice and pointer fields only through an embedded struct of an unexported type (they
+// are serialised: the field walk recurses into every embedded struct). reflect cannot set such fields, so its
+// values are hand-built leaves.
+type EmbHidden struct {
+	inner3
+	Name string
+}
+
+func MakeEmbHidden(name string, p *int, tags ...string) EmbHidden {
+	return EmbHidden{inner3{tags, p}, name}
+}
+
 type EmbDeep struct {
 	X int8
 	Embedded
@@ -185,6 +202,8 @@ func Leaves() []Leaf {
 		{Class: "myfloat", Vals: vals(MyFloat(1.5), 0, MyFloat(math.NaN()), MyFloat(math.Inf(-1)))},
 		{Class: "mystring", Vals: vals(MyString("ab"), "", "a", "\U0001F600", "\xff")},
 		{Class: "mybytes", Vals: vals(MyBytes{1, 2}, MyBytes(nil), MyBytes{})},
+		{Class: "embhidden", Vals: vals(MakeEmbHidden("a", &i1, "red", "blue"), MakeEmbHidden("b", &i2, "pink", "grey"), MakeEmbHidden("c", nil, "x", "y"), MakeEmbHidden("", nil))},
+		{Class: "emptyanon", Vals: vals(struct{}{})},
 	}
 	for i := range ls {
 		ls[i].T = ls[i].Vals[0].Type()
